@@ -12,7 +12,7 @@
 //
 //   preprocess ast                  stdin lines as above -> "<input> = <answer of the parse entry point>":
 //                                   `parser::verif::parse_source` (= parser_logic::parse_file) is run on
-//                                   the text with file id 0 and the WHOLE answer is printed: "ast <sexp>"
+//                                   the text with the file id (0 unless `fid N`) and the WHOLE answer is printed: "ast <sexp>"
 //                                   (version, custom-gate flags, includes, every definition with name,
 //                                   arguments, argument location and body, main component; every Meta with
 //                                   start, end, location, file id; every constructor and field matched
@@ -21,8 +21,20 @@
 //                                   observe that sources with the same comment-lexer image are
 //                                   indistinguishable behind the entry point.
 //
+//   preprocess project              stdin lines: JSON {"files": [paths named on the command line]} -> one JSON line:
+//                                   the answer of the public entry point `parser::parse_files` (no hook), UNFILTERED:
+//                                   mode (program | library), the files read (id, path, user input or included),
+//                                   every report (level, id, message, primary labels with file id, path, byte range)
+//                                   and every definition kept (kind, name, path of its file).  Used for an unclosed
+//                                   comment in a file that is only included: the CLI does not display reports located
+//                                   in such files (C03 / C19), so the report is looked for where it is produced.
+//   preprocess fid <N> ...          any of the above with file id N instead of 0 handed to the hook
+//                                   (third audit: the file id of the report is part of the answer)
+//
 // result: "ok c c c" (scalars of the output text) | "err <start> <end>" (byte
-// range of the primary label of the report) | "panic".
+// range of the primary label of the report; followed by " file-id <f>" when the
+// label names another file than the one the hook was called with, and by
+// " labels <n>" when the report has not exactly one primary label) | "panic".
 use program_structure::ast::*;
 use program_structure::report::Report;
 use std::fmt::Write as _;
@@ -39,12 +51,28 @@ fn show_scalars<I: Iterator<Item = char>>(it: I) -> String {
     }
 }
 
+static FILE_ID: std::sync::atomic::AtomicUsize = std::sync::atomic::AtomicUsize::new(0);
+
+fn file_id() -> usize {
+    FILE_ID.load(std::sync::atomic::Ordering::Relaxed)
+}
+
 pub fn run_one(src: &str) -> String {
-    match verif_harness::guarded(|| parser::verif::preprocess(src, 0)) {
+    let fid = file_id();
+    match verif_harness::guarded(|| parser::verif::preprocess(src, fid)) {
         None => "panic".to_string(),
         Some(Ok(text)) => format!("ok {}", show_scalars(text.chars())),
         Some(Err(report)) => match report.primary().first() {
-            Some(label) => format!("err {} {}", label.range.start, label.range.end),
+            Some(label) => {
+                let mut o = format!("err {} {}", label.range.start, label.range.end);
+                if label.file_id != fid {
+                    write!(o, " file-id {}", label.file_id).unwrap();
+                }
+                if report.primary().len() != 1 {
+                    write!(o, " labels {}", report.primary().len()).unwrap();
+                }
+                o
+            }
             None => "err nolabel".to_string(),
         },
     }
@@ -417,11 +445,64 @@ fn report_dump(r: &Report) -> String {
 }
 
 pub fn ast_one(src: &str) -> String {
-    match verif_harness::guarded(|| parser::verif::parse_source(src, 0)) {
+    match verif_harness::guarded(|| parser::verif::parse_source(src, file_id())) {
         None => "panic".to_string(),
         Some(Ok(ast)) => format!("ast {}", ast_dump(&ast)),
         Some(Err(report)) => format!("error {}", report_dump(&report)),
     }
+}
+
+fn project_line(line: &str) -> String {
+    use serde_json::{json, Value};
+    let input: Value = match serde_json::from_str(line) {
+        Ok(v) => v,
+        Err(e) => return json!({"bad_input": e.to_string()}).to_string(),
+    };
+    let files_in: Vec<std::path::PathBuf> = input["files"]
+        .as_array()
+        .map(|a| a.iter().filter_map(|x| x.as_str()).map(std::path::PathBuf::from).collect())
+        .unwrap_or_default();
+    let Some(result) = verif_harness::guarded(|| {
+        parser::parse_files(&files_in, &[], &program_analysis::config::COMPILER_VERSION)
+    }) else {
+        return json!({"panic": "parse_files"}).to_string();
+    };
+    let (mode, templates, functions, files, reports) = match result {
+        parser::ParseResult::Program(p, r) => ("program", p.templates, p.functions, p.file_library, r),
+        parser::ParseResult::Library(l, r) => ("library", l.templates, l.functions, l.file_library, r),
+    };
+    let storage = files.to_storage();
+    let path_of = |id: usize| storage.get(id).map(|f| f.name().clone()).ok();
+    let mut file_list = Vec::new();
+    let mut id = 0;
+    while let Ok(file) = storage.get(id) {
+        file_list.push(json!({"id": id, "path": file.name(), "user": files.is_user_input(id)}));
+        id += 1;
+    }
+    let reports: Vec<Value> = reports
+        .iter()
+        .map(|r| {
+            json!({
+                "level": r.category().to_level(),
+                "id": r.id(),
+                "message": r.message(),
+                "primary": r.primary().iter().map(|l| json!({"file": l.file_id, "path": path_of(l.file_id),
+                    "start": l.range.start, "end": l.range.end})).collect::<Vec<_>>(),
+            })
+        })
+        .collect();
+    let mut defs = Vec::new();
+    let mut names: Vec<&String> = templates.keys().collect();
+    names.sort();
+    for n in names {
+        defs.push(json!({"kind": "template", "name": n, "path": path_of(templates[n].get_file_id())}));
+    }
+    let mut names: Vec<&String> = functions.keys().collect();
+    names.sort();
+    for n in names {
+        defs.push(json!({"kind": "function", "name": n, "path": path_of(functions[n].get_file_id())}));
+    }
+    json!({"mode": mode, "files": file_list, "reports": reports, "defs": defs}).to_string()
 }
 
 /// 62-bit multiplicative hash, the same on the OCaml side.
@@ -487,13 +568,19 @@ fn sweep(len: usize, prefix: usize, digest: bool, alphabet: &[char]) {
 
 fn main() {
     verif_harness::silence_panics();
-    let args: Vec<String> = std::env::args().collect();
+    let mut args: Vec<String> = std::env::args().collect();
+    if args.len() >= 3 && args[1] == "fid" {
+        FILE_ID.store(args[2].parse().unwrap(), std::sync::atomic::Ordering::Relaxed);
+        args.drain(1..3);
+    }
     if args.len() >= 5 && args[1] == "sweep" {
         let alphabet: Vec<char> = match args.get(5) {
             Some(a) => a.split(',').map(|t| char::from_u32(t.parse().unwrap()).unwrap()).collect(),
             None => ALPHABET.to_vec(),
         };
         sweep(args[2].parse().unwrap(), args[3].parse().unwrap(), args[4] == "digest", &alphabet);
+    } else if args.len() >= 2 && args[1] == "project" {
+        verif_harness::each_line(project_line);
     } else if args.len() >= 2 && args[1] == "ast" {
         verif_harness::each_line(ast_line);
     } else {
